@@ -948,6 +948,74 @@ pub fn run_c11(ctx: &mut Ctx, _known: &Known) {
             }
         }
     }
+    // (1i) paths of up to 24 steps against a document that resolves dotted keys ITSELF (a hand-written
+    //      `Document` with its own walk), and strings that merely LOOK like other kinds (`yes`, `no`,
+    //      `on`, `off`, `true`, `null`, `~`, `1`) held as strings in every representation
+    {
+        struct WalkDoc(MyObj);
+        impl Document for WalkDoc {
+            fn find(&self, key: &str) -> Option<Value<'_>> {
+                let mut obj: &MyObj = &self.0;
+                let mut cur: Option<&MyVal> = None;
+                let segs: Vec<&str> = key.split('.').collect();
+                for (n, seg) in segs.iter().enumerate() {
+                    if n > 0 {
+                        obj = match cur { Some(MyVal::Obj(o)) => o, _ => return None };
+                    }
+                    let (name, idx) = match seg.strip_suffix(']').and_then(|t| t.rsplit_once('[')) {
+                        Some((nm, i)) => match i.parse::<usize>() { Ok(i) => (nm, Some(i)), Err(_) => (*seg, None) },
+                        None => (*seg, None),
+                    };
+                    let v = obj.0.iter().find(|(k, _)| k == name).map(|(_, v)| v)?;
+                    cur = Some(match idx { Some(i) => match v { MyVal::Arr(a) => a.get(i)?, _ => return None }, None => v });
+                }
+                cur.map(|v| v.as_value())
+            }
+        }
+        for depth in [2usize, 8, 9, 16, 17, 20, 24] {
+            let mut yv: Yaml = Yaml::Sequence(vec![ys("deep"), ys("deeper")]);
+            for i in (1..=depth).rev() {
+                yv = map1(&format!("l{}", i), yv);
+            }
+            let path: Vec<String> = (1..=depth).map(|i| format!("l{}", i)).collect();
+            for (key, val, cond) in [(format!("{}[0]", path.join(".")), "deep", "A"), (format!("{}[1]", path.join(".")), "deep", "not A"), (path.join("."), "deeper", "A"), (format!("{}.x", path.join(".")), "deep", "not A")] {
+                let text = format!("detection:\n  A:\n    {}: {}\n  condition: {}\ntrue_positives: []\ntrue_negatives: []\n", key, val, cond);
+                let rule = match Rule::from_str(&text) { Ok(r) => r, Err(_) => continue };
+                ctx.evaluations += 1;
+                ctx.nontrivial.insert(hash_str(&format!("walk{}{}{}", depth, key, cond)));
+                let ym = yv.as_mapping().unwrap().clone();
+                let js = json_of_yaml(&yv).unwrap();
+                let hm: HashMap<String, serde_json::Value> = js.as_object().map(|o| o.iter().map(|(k, v)| (k.clone(), v.clone())).collect()).unwrap_or_default();
+                let my = match my_of_yaml(&yv) { MyVal::Obj(o) => o, _ => continue };
+                let reps = [("yaml mapping", rule.matches(&ym)), ("serde_json value", rule.matches(&js)), ("HashMap<String, serde_json::Value>", rule.matches(&hm)), ("hand-written Object", rule.matches(&my)), ("hand-written Document with its own path walk", rule.matches(&WalkDoc(my.clone())))];
+                if reps.iter().any(|(_, b)| *b != reps[0].1) {
+                    let dummy = ctx.exchange("tok s:");
+                    ctx.violation("oracle", &format!("a path of {} steps (`{}`): verdicts differ between representations: {:?}", depth, cond, reps), &dummy, &text, true);
+                }
+            }
+        }
+        for word in ["yes", "no", "on", "off", "Yes", "NO", "On", "OFF", "y", "n", "true", "True", "false", "null", "~", "1", "0", "1.0", ".inf", "0x1", "1e3"] {
+            for (body, cond) in [(format!("answer: '{}'", word), "A"), ("answer: true".to_string(), "A"), ("answer: false".to_string(), "A"), (format!("str(answer): '{}'", word), "A"), ("int(answer): 1".to_string(), "A"), ("int(answer): 0".to_string(), "A"), ("answer: null".to_string(), "A"), (format!("votes: '{}'", word), "A"), (format!("votes: ['i{}', zz]", word), "not A"), ("flt(answer): '>=0.5'".to_string(), "A")] {
+                let text = format!("detection:\n  A:\n    {}\n  condition: {}\ntrue_positives: []\ntrue_negatives: []\n", body, cond);
+                let rule = match Rule::from_str(&text) { Ok(r) => r, Err(_) => continue };
+                ctx.evaluations += 1;
+                ctx.nontrivial.insert(hash_str(&format!("looks{}{}{}", word, body, cond)));
+                let mut ym = Mapping::new();
+                ym.insert(ys("answer"), ys(word));
+                ym.insert(ys("votes"), Yaml::Sequence(vec![ys("maybe"), ys(word)]));
+                let js = serde_json::json!({ "answer": word, "votes": ["maybe", word] });
+                let mut hm: HashMap<String, serde_json::Value> = HashMap::new();
+                hm.insert("answer".into(), serde_json::json!(word));
+                hm.insert("votes".into(), serde_json::json!(["maybe", word]));
+                let my = MyObj(vec![("answer".to_string(), MyVal::Str(word.to_string())), ("votes".to_string(), MyVal::Arr(vec![MyVal::Str("maybe".into()), MyVal::Str(word.to_string())]))]);
+                let reps = [("yaml mapping", rule.matches(&ym)), ("serde_json value", rule.matches(&js)), ("HashMap<String, serde_json::Value>", rule.matches(&hm)), ("hand-written Object", rule.matches(&my))];
+                if reps.iter().any(|(_, b)| *b != reps[0].1) {
+                    let dummy = ctx.exchange("tok s:");
+                    ctx.violation("oracle", &format!("rule `{}` ({}) on the STRING {:?}: verdicts differ between representations: {:?}", body, cond, word, reps), &dummy, &text, true);
+                }
+            }
+        }
+    }
     // (2) the same logical document in four representations gives the same verdicts
     let n = budget(ctx, 1200, 30000);
     for i in 0..n {
@@ -1642,6 +1710,36 @@ fn c12_passes_and_races(ctx: &mut Ctx) {
             }
         }
     }
+    // optimise() is a function of (rule, switches) — not of the switches of OTHER optimise calls: every
+    // switch combination printed in ascending order, in descending order, and while other threads
+    // optimise the same rule with all switches on
+    for text in [
+        "detection:\n  A:\n    f: ['?.*foo', '?bar.*', '?.*baz.*']\n  B:\n    f: '?.*qux'\n  C:\n    g: ['a*', '*b']\n  condition: A or B or C\ntrue_positives: []\ntrue_negatives: []\n",
+        "detection:\n  A:\n  - f: '?.*foo'\n  - f: 'i?bar.*'\n  - f: '?^.*baz$'\n  - g: x\n    f: '?.*x.*'\n  condition: A\ntrue_positives: []\ntrue_negatives: []\n",
+        "detection:\n  A:\n    f: '?.*foo.*'\n  B:\n    f: '?.*bar'\n  C:\n    f: ['*a*', 'b*']\n  D:\n    h: 1\n  condition: (A or B or C) and not D\ntrue_positives: []\ntrue_negatives: []\n",
+    ] {
+        let rule = match Rule::from_str(text) { Ok(r) => r, Err(_) => continue };
+        ctx.evaluations += 48;
+        ctx.nontrivial.insert(hash_str(&format!("switch-leak{}", text)));
+        let print = |m: u64| -> String { let o = rule.clone().optimise(implside::opts(m)); format!("{} {}", o.detection.expression, implside::ids_sx(&o.detection.identifiers)) };
+        let up: Vec<String> = (0..16u64).map(|m| print(m)).collect();
+        let down: Vec<String> = (0..16u64).rev().map(|m| print(m)).collect::<Vec<_>>().into_iter().rev().collect();
+        let stop = Arc::new(std::sync::atomic::AtomicBool::new(false));
+        let noise: Vec<_> = (0..4).map(|_| { let r2 = rule.clone(); let st = Arc::clone(&stop); std::thread::spawn(move || { while !st.load(std::sync::atomic::Ordering::Relaxed) { let _ = r2.clone().optimise(crate::implside::opts(15)); let _ = r2.clone().optimise(crate::implside::opts(4)); } }) }).collect();
+        let mut busy: Vec<String> = vec![];
+        for _ in 0..20 {
+            busy = (0..16u64).map(|m| print(m)).collect();
+            if busy != up { break; }
+        }
+        stop.store(true, std::sync::atomic::Ordering::Relaxed);
+        for h in noise { let _ = h.join(); }
+        for m in 0..16usize {
+            if up[m] != down[m] || up[m] != busy[m] {
+                ctx.violation("oracle", &format!("optimise() with switches {} prints differently depending on the optimise calls made before or at the same time: {} | {} | {}", m, trunc(&up[m], 200), trunc(&down[m], 200), trunc(&busy[m], 200)), &dummy("switch-leak"), text, true);
+                break;
+            }
+        }
+    }
     // loading does not depend on what FAILED to load before on the same thread: 400 failed loads
     // (errors at several depths of the identifier block, in the condition, in the YAML), then texts
     // that load — compared with the same texts loaded on a fresh thread
@@ -1925,7 +2023,7 @@ fn c14_compare_text(ctx: &mut Ctx, text: &str, i: usize) {
 /// Hand-written layouts that `serde_yaml::to_string` never produces: block scalars (literal, folded,
 /// with indentation indicators, holding tabs and trailing blanks), CRLF line ends, comments, flow
 /// style, document markers, escapes in double-quoted scalars, a byte-order mark.
-fn c14_layouts(ctx: &mut Ctx) {
+fn c14_layouts(ctx: &mut Ctx, known: &Known) {
     let head = ["", "---\n", "# a comment\n", "\u{feff}", "%YAML 1.2\n---\n"];
     let bodies = [
         "detection:\n  A:\n    cmd: |\n      begin\n      \trun\n  condition: A\ntrue_positives:\n- cmd: |\n    begin\n    \trun\ntrue_negatives: []\n",
@@ -1942,6 +2040,61 @@ fn c14_layouts(ctx: &mut Ctx) {
         "detection:\n  A:\n    cmd: x\n  condition: A\n...\n",
         "detection:\n  A:\n    cmd: 'it''s'\n    say: \"a \\\"q\\\" b\"\n  condition: A\ntrue_positives:\n- cmd: it's\n  say: 'a \"q\" b'\ntrue_negatives: []\n",
     ];
+    // top-level keys that are not strings, and explicit core tags (`!!str`, `!!int`, `!!bool`, `!!map`,
+    // `!!seq`, `!!null`) at every level: read alike from the text and from its value
+    let base = "detection:\n  A:\n    foo: bar\n  condition: A\ntrue_positives: []\ntrue_negatives: []\n";
+    let mut i = 200000;
+    for extra in ["1: x\n", "true: x\n", "~: x\n", "2.5: x\n", "other: x\n", "[a]: x\n", "{a: b}: x\n", "? [1, 2]\n: x\n", "!t k: x\n", "'1': x\n1: y\n", "null: ~\n", "optimised: true\n", "optimised: !!bool true\n", "optimised: 'true'\n", "optimised: yes\n", "optimised: 1\n", "optimised: ~\n", "optimised: !!str true\n", ".inf: x\n", "-0: x\n"] {
+        i += 1;
+        c14_compare_text(ctx, &format!("{}{}", base, extra), i);
+        i += 1;
+        c14_compare_text(ctx, &format!("{}{}", extra, base), i);
+    }
+    // keys that are no part of a rule today (descriptive metadata a rule file plausibly carries), with
+    // values of every kind: whatever the loader makes of them, it makes the same of text and value
+    for key in ["id", "title", "name", "description", "level", "author", "tags", "status", "date", "version", "references", "severity", "enabled", "uuid", "Detection", "Condition"] {
+        for val in ["1001", "4624", "1.2", "true", "~", "[a, 1]", "{k: v}", "2024-01-01", "'text'", "0x1F", "!t x", "- a", ""] {
+            i += 1;
+            let entry = if val.starts_with('-') { format!("{}:\n{}\n", key, val) } else { format!("{}: {}\n", key, val) };
+            c14_compare_text(ctx, &format!("{}{}", entry, base), i);
+            if i % 3 == 0 {
+                c14_compare_text(ctx, &format!("{}{}", base, entry), i + 50000);
+            }
+        }
+    }
+    for t in [
+        "detection:\n  A:\n    foo: bar\n  condition: !!str A\ntrue_positives: []\ntrue_negatives: []\n",
+        "detection:\n  A:\n    foo: !!str 5\n    g: !!int '5'\n    h: !!bool 'true'\n    k: !!float '1'\n  condition: A\ntrue_positives: []\ntrue_negatives: []\n",
+        "detection: !!map\n  A: !!map\n    foo: !!seq [a, !!str 1]\n  condition: A\ntrue_positives: !!seq []\ntrue_negatives: !!null ~\n",
+        "detection:\n  !!str A:\n    !!str foo: bar\n  !!str condition: A\ntrue_positives: []\ntrue_negatives: []\n",
+        "detection:\n  A:\n    foo: !!null 'x'\n  condition: A\ntrue_positives: []\ntrue_negatives: []\n",
+        "detection:\n  1:\n    foo: bar\n  condition: 1\ntrue_positives: []\ntrue_negatives: []\n",
+        "detection:\n  A:\n    1: bar\n    true: x\n    ~: y\n  condition: A\ntrue_positives: [{1: bar, true: x}]\ntrue_negatives: [{~: y}]\n",
+        "detection:\n  A:\n    foo: bar\n  condition: A\ntrue_positives: !!seq\n- !!map {foo: !!str bar}\ntrue_negatives: []\n",
+    ] {
+        i += 1;
+        c14_compare_text(ctx, t, i);
+    }
+    // the recorded witnesses of KF-C14-tagged-quoted-flag: reported as such while they reproduce
+    for f in known.for_prop("C14") {
+        if f.family != "C14-tagged-quoted-flag" {
+            continue;
+        }
+        for w in &f.witnesses {
+            let text = format!("{}{}\n", base, w);
+            ctx.evaluations += 1;
+            let a = std::panic::catch_unwind(|| Rule::from_str(&text).is_ok());
+            let b = std::panic::catch_unwind(|| serde_yaml::from_str::<Yaml>(&text).ok().map(|v| Rule::from_value(v).is_ok()));
+            match (a, b) {
+                (Ok(false), Ok(Some(true))) => { *ctx.known_hits.entry(f.id.clone()).or_insert(0) += 1; }
+                (Ok(x), Ok(Some(y))) if x == y => {}
+                other => {
+                    let dummy = Exchange { line: format!("witness {}", w), imp: String::new(), model: String::new(), agree: true, supported: false };
+                    ctx.violation("oracle", &format!("from_str / from_value on the recorded witness `{}` now give {:?}", w, other), &dummy, &text, true);
+                }
+            }
+        }
+    }
     let mut i = 100000;
     for h in head {
         for b in bodies {
@@ -2003,7 +2156,7 @@ pub fn run_c14(ctx: &mut Ctx, _known: &Known) {
         c14_optimised_vs_reloaded(ctx, known, &name, &c, true, ex.agree && ex.supported);
     }
     c14_text_vs_value(ctx);
-    c14_layouts(ctx);
+    c14_layouts(ctx, _known);
     let n = budget(ctx, 1200, 30000);
     let tricky = ["*x", "?re", "'01'", "1", "true", "~", "0x1F", "1e3", "a\nb", "a\tb", " lead", "trail ", "- dash", "a: b", "#hash", "\"q\"", "'q'", "i*", "null", "NO", "0o7", "=1", ">=2.5", "{a}", "[a]", "a,b", "&x", "!t", "%p", "@a", "`b"];
     for i in 0..n {
